@@ -117,6 +117,74 @@ theorem onlyLeaf_fold (ch : Fin 8 → T K) : ∀ (l : List (Fin 8)) (acc : Optio
       cases (List.flatMap (fun o => leaves (ch o)) l).getLast? <;> simp
     | node c g n ch' => simp [hc, isNode] at ho
 
+/-- recount + derefinement of an inner node whose children are already well formed: the result is well formed
+    and holds exactly the particles of the children -/
+theorem rebuild_spec (ps : Nat → Pt K) (c0 : Cell K) (g : Grav K) (ch' : Fin 8 → T K)
+    (IH : ∀ o, WF ps false (childCell c0 o) (ch' o)) :
+    WF ps false c0 (rebuild c0 g ch') ∧
+    List.Perm (leaves (rebuild c0 g ch')) ((List.finRange 8).flatMap fun o => leaves (ch' o)) := by
+  set L := (List.finRange 8).flatMap fun o => leaves (ch' o) with hL
+  have hn : Fin.foldl 8 (fun (a : Int) o => a - cnt (ch' o)) 0 = -(L.length : Int) := by
+    rw [Fin.foldl_eq_finRange_foldl, foldl_sub_cnt, hL, length_flatMap_sum]
+    simp only [zero_sub]
+    congr 1
+    congr 1
+    apply List.map_congr_left
+    intro o _
+    exact cnt_eq ps false _ _ (IH o)
+  simp only [rebuild, hn]
+  by_cases h0 : (L.length : Int) = 0
+  · have hl0 : L = [] := by
+      have : L.length = 0 := by omega
+      exact List.length_eq_zero_iff.mp this
+    simp only [h0, neg_zero, if_true]
+    refine ⟨trivial, ?_⟩
+    simp only [leaves]
+    rw [hl0]
+  · by_cases h1 : (L.length : Int) = 1
+    · have hnz : ¬ (-(L.length : Int) = 0) := by omega
+      have hm1 : (-(L.length : Int) = -1) := by omega
+      simp only [hnz, hm1, if_false, if_true]
+      obtain ⟨q, hq⟩ : ∃ q, L = [q] := by
+        have : L.length = 1 := by omega
+        exact List.length_eq_one_iff.mp this
+      have hnonode : ∀ o ∈ List.finRange 8, isNode (ch' o) = false := by
+        intro o _
+        cases hs : ch' o with
+        | nil => rfl
+        | leaf _ _ _ => rfl
+        | node c1 g1 n1 ch1 =>
+          exfalso
+          have hw := IH o
+          rw [hs] at hw
+          obtain ⟨_, _, _, h2, _⟩ := hw
+          have hsp := fin8_split (fun o => leaves (ch' o)) o
+          have hlen := hsp.length_eq
+          simp only [List.length_append] at hlen
+          rw [← hL, hq] at hlen
+          simp only [hs, leaves, List.length_singleton] at hlen
+          omega
+      have hol : onlyLeaf ch' = some q := by
+        unfold onlyLeaf
+        have := onlyLeaf_fold ch' _ none hnonode
+        simp only [← hL, hq] at this
+        exact this.trans (by simp)
+      simp only [hol]
+      have hqin : In (ps q) c0 := by
+        have : q ∈ L := by rw [hq]; simp
+        rw [hL, List.mem_flatMap] at this
+        obtain ⟨o, _, hqo⟩ := this
+        exact In_parent _ _ o (In_of_mem_leaves ps false _ _ (IH o) q hqo)
+      refine ⟨⟨rfl, hqin⟩, ?_⟩
+      show List.Perm [q] L
+      rw [hq]
+    · have hnz : ¬ (-(L.length : Int) = 0) := by omega
+      have hm1 : ¬ (-(L.length : Int) = -1) := by omega
+      simp only [hnz, hm1, if_false]
+      refine ⟨⟨rfl, fun o => IH o, rfl, by show 2 ≤ L.length; omega, by simp⟩, ?_⟩
+      simp only [leaves]
+      exact List.Perm.refl _
+
 theorem sweep_spec (ps : Nat → Pt K) : ∀ (t : T K) (c : Cell K), Geo c t →
     WF ps false c (sweep ps t).1 ∧ List.Perm (leaves (sweep ps t).1 ++ (sweep ps t).2) (leaves t) := by
   intro t
@@ -138,78 +206,12 @@ theorem sweep_spec (ps : Nat → Pt K) : ∀ (t : T K) (c : Cell K), Geo c t →
     have IH : ∀ o, WF ps false (childCell c0 o) (sweep ps (ch o)).1 ∧
         List.Perm (leaves (sweep ps (ch o)).1 ++ (sweep ps (ch o)).2) (leaves (ch o)) :=
       fun o => ih o _ (hgeo o)
-    set L := (List.finRange 8).flatMap fun o => leaves (sweep ps (ch o)).1 with hL
-    set E := (List.finRange 8).flatMap fun o => (sweep ps (ch o)).2 with hE
-    have hperm : List.Perm (L ++ E) (leaves (.node c0 g n0 ch)) := by
-      refine (flatMap_append_perm _ _ _).symm.trans ?_
-      exact flatMap_perm_congr _ _ (fun o => (IH o).2) _
-    have hn : Fin.foldl 8 (fun (a : Int) o => a - cnt (sweep ps (ch o)).1) 0 = -(L.length : Int) := by
-      rw [Fin.foldl_eq_finRange_foldl, foldl_sub_cnt, hL, length_flatMap_sum]
-      simp only [zero_sub]
-      congr 1
-      congr 1
-      apply List.map_congr_left
-      intro o _
-      exact cnt_eq ps false _ _ (IH o).1
-    simp only [sweep, memo_eq, hn]
-    by_cases h0 : (L.length : Int) = 0
-    · have hl0 : L = [] := by
-        have : L.length = 0 := by omega
-        exact List.length_eq_zero_iff.mp this
-      simp only [h0, neg_zero, if_true]
-      refine ⟨trivial, ?_⟩
-      simp only [leaves, List.nil_append]
-      rw [hl0, List.nil_append] at hperm
-      exact hperm
-    · by_cases h1 : (L.length : Int) = 1
-      · have hnz : ¬ (-(L.length : Int) = 0) := by omega
-        have hm1 : (-(L.length : Int) = -1) := by omega
-        simp only [hnz, hm1, if_false, if_true]
-        obtain ⟨q, hq⟩ : ∃ q, L = [q] := by
-          have : L.length = 1 := by omega
-          exact List.length_eq_one_iff.mp this
-        have hnonode : ∀ o ∈ List.finRange 8, isNode (sweep ps (ch o)).1 = false := by
-          intro o _
-          cases hs : (sweep ps (ch o)).1 with
-          | nil => rfl
-          | leaf _ _ _ => rfl
-          | node c1 g1 n1 ch1 =>
-            exfalso
-            have hw := (IH o).1
-            rw [hs] at hw
-            obtain ⟨_, _, _, h2, _⟩ := hw
-            have hsp := fin8_split (fun o => leaves (sweep ps (ch o)).1) o
-            have hlen := hsp.length_eq
-            simp only [List.length_append] at hlen
-            rw [← hL, hq] at hlen
-            simp only [hs, leaves, List.length_singleton] at hlen
-            omega
-        have hol : onlyLeaf (fun o => (sweep ps (ch o)).1) = some q := by
-          unfold onlyLeaf
-          have := onlyLeaf_fold (fun o => (sweep ps (ch o)).1) _ none hnonode
-          simp only [← hL, hq] at this
-          show List.foldl (fun acc o => match (sweep ps (ch o)).1 with
-            | .leaf _ _ q => some q
-            | _ => acc) none (List.finRange 8) = some q
-          rw [this]
-          simp
-        simp only [hol]
-        have hqin : In (ps q) c0 := by
-          have : q ∈ L := by rw [hq]; simp
-          rw [hL, List.mem_flatMap] at this
-          obtain ⟨o, _, hqo⟩ := this
-          exact In_parent _ _ o (In_of_mem_leaves ps false _ _ (IH o).1 q hqo)
-        refine ⟨⟨rfl, hqin⟩, ?_⟩
-        simp only [leaves]
-        rw [hq] at hperm
-        exact hperm
-      · have hnz : ¬ (-(L.length : Int) = 0) := by omega
-        have hm1 : ¬ (-(L.length : Int) = -1) := by omega
-        simp only [hnz, hm1, if_false]
-        refine ⟨⟨rfl, fun o => (IH o).1, rfl, by show 2 ≤ L.length; omega, by simp⟩, ?_⟩
-        simp only [leaves]
-        exact hperm
-
+    obtain ⟨hwf, hp⟩ := rebuild_spec ps c0 g (fun o => (sweep ps (ch o)).1) (fun o => (IH o).1)
+    simp only [sweep, memo_eq]
+    refine ⟨hwf, ?_⟩
+    refine (List.Perm.append_right _ hp).trans ?_
+    refine (flatMap_append_perm _ _ _).symm.trans ?_
+    exact flatMap_perm_congr _ _ (fun o => (IH o).2) _
 
 theorem reinsert_spec (ps : Nat → Pt K) (tie : Bool) (f : Nat) (c : Cell K) : ∀ (ev : List Nat) (t t' : T K),
     WF ps tie c t → (∀ q ∈ ev, In (ps q) c) → reinsert ps f c t ev = .ok t' →
